@@ -3,8 +3,9 @@ import p_piecestore
 import p_wire
 import p_metadata
 import p_geometry
+import p_tracker
 
-HOOK_COMMITS = ["ad8b203", "23d7fe8", "8de280d"]
+HOOK_COMMITS = ["ad8b203", "23d7fe8", "8de280d", "16a7335"]
 
 NOT_APPLICABLE = {}
 
@@ -15,6 +16,14 @@ _PS_NOTE = ("Trusted: TLC, the Go harness (gate scheduler, content PRF, projecti
 _B4 = "TLC-enumerated case table (TLA+ decision function over boundary classes) executed on the real code, outcomes checked by TLC against the specification's invariants"
 
 REGISTRY = {
+    "C15": {"run": p_tracker.run, "design": "DESIGN.md section 3 C15",
+            "technique": "TLC exhaustive model checking of Tracker.tla / UdpExchange.tla + replay of every edge / every reply sequence on the real tracker code against scripted local trackers",
+            "level": "Tracker.tla (lock, readiness with the 5/15/30 min rules, reply classes, minimum-gap history) and UdpExchange.tla (4-attempt "
+                     "retransmission over 6 reply classes) are model-checked exhaustively; every reply sequence is run through the real udpRequestReply "
+                     "over a scripted connection, and edge-covering walks of the lifetime graph are executed with tracker.New(...).Announce/GetState "
+                     "against a local HTTP server and a local UDP socket with the clock advanced by a hook; stuck-busy, contact gaps and learnt peers "
+                     "are checked model-free, everything else against the specification's state.",
+            "note": "Trusted: TLC, the scripted servers. IPv6 leg always fails in the sandbox binding (127.0.0.1 only)."},
     "C13": {"run": p_geometry.run, "design": "DESIGN.md section 3 C13", "technique": _B4,
             "level": "Geometry.tla maps an abstract metainfo record to Reject or Accept(geometry); TLC checks the accepted geometries are "
                      "self-consistent and enumerates ~1600 records; each is bencoded and read by tor.ReadTorrent; accepted torrents are compared "
